@@ -89,12 +89,16 @@ var c11Templates = []string{
 	`<p>{{ x + 1 }}</p>`, `<p>{{ x == 1 }}</p>`, `<p v-if="x > 1">a</p>`, `<p v-if="!x">a</p>`, `<template include="c.vuego" :p="x"></template>`, `<template :y="x">{{ y }}</template>`,
 	`<p>{{ x | json }}</p>`, `<p>{{ x | int }}</p>`, `<p>{{ x | string }}</p>`, `<p>{{ x | formatTime("2006") }}</p>`, `<p>{{ x | title }}</p>`, `<p>{{ x.secret }}</p>`, `<p>{{ x.1 }}</p>`, `<p v-for="i in x.Items">{{ i }}</p>`,
 	`<p :title="x.hidden">a</p>`, `<p v-if="x.secret">a</p>`, `<slot :p="x">f</slot>`, `<p v-once v-for="i in x">{{ i }}</p>`,
+	// names promoted from an embedded struct, by Go name and by JSON tag, directly and through a loop variable (the embedded pointer may be nil)
+	`<p>{{ x.created }}|{{ x.Created }}|{{ x.ID }}|{{ x.note }}</p>`, `<p>{{ x.Base.Created }}{{ x.Base.created }}</p>`, `<p v-for="p in x">{{ p.created }}{{ p.ID }}{{ p.Base }}</p>`,
+	`<p v-if="x.created">a</p><p :title="x.created" :class="{k: x.ID}">b</p>`, `<p>{{ x.n5.created }}{{ x.n5.ID }}{{ x.title }}</p>`,
 }
 
 func c11Data() []any {
 	var np *S2
 	return []any{nil, true, 0, 1, int8(3), uint64(9), 2.5, "", "str", []any{}, []any{1, "a", nil}, []int{1, 2}, [2]int{3, 4}, map[string]any{}, map[string]any{"y": map[string]any{"z": 1}}, map[string]string{"y": "s"},
-		map[int]string{1: "x"}, map[string]int{"y": 1}, S1{Name: "n", secret: "s", hidden: 1, Items: []int{1}}, &S1{Name: "p"}, np, S2{X: 1}, []S2{{1, "a"}}, MyStr("m"), MyInt(2), func() {}, make(chan int), struct{ a int }{1}, time.Unix(0, 0), []byte("bytes"), [][]any{{1}}}
+		map[int]string{1: "x"}, map[string]int{"y": 1}, S1{Name: "n", secret: "s", hidden: 1, Items: []int{1}}, &S1{Name: "p"}, np, S2{X: 1}, []S2{{1, "a"}}, MyStr("m"), MyInt(2), func() {}, make(chan int), struct{ a int }{1}, time.Unix(0, 0), []byte("bytes"), [][]any{{1}},
+		S5{}, S5{Base: &Base{Created: "c", ID: 2}, Title: "t"}, &S5{}, []S5{{}, {Base: &Base{Created: "d"}}}, S4{Base: Base{Created: "e"}, Title: "t4"}, map[string]any{"n5": S5{}, "title": "T"}, []*S5{nil, {}}}
 }
 
 func c11TypedEval(tpl string, x any) *Case {
